@@ -16,6 +16,7 @@ import (
 	"github.com/hslam/socket"
 	"io"
 	"os"
+	"reflect"
 	"runtime"
 	"sync"
 	"sync/atomic"
@@ -40,6 +41,7 @@ type Server struct {
 	listeners   []socket.Listener
 	mutex       sync.RWMutex
 	codecs      map[ServerCodec]io.Closer
+	uncallable  sync.Map // "Service.Method" names whose signature the calling conventions do not cover
 }
 
 // NewServerCodecFunc is the function making a new ServerCodec by socket.Messages.
@@ -66,22 +68,70 @@ var DefaultServer = NewServer()
 
 // Register publishes in the server the set of methods of the
 // receiver value that satisfy the following conditions:
-//	- exported method of exported type
-//	- two arguments, both of exported type
-//	- the second argument is a pointer
-//	- one return value, of type error
+//   - exported method of exported type
+//   - two arguments, both of exported type
+//   - the second argument is a pointer
+//   - one return value, of type error
+//
 // It returns an error if the receiver is not an exported type or has
 // no suitable methods. It also logs the error using package log.
 // The client accesses each method using a string of the form "Type.Method",
 // where Type is the receiver's concrete type.
 func (server *Server) Register(obj interface{}) error {
-	return server.Funcs.Register(obj)
+	if err := server.Funcs.Register(obj); err != nil {
+		return err
+	}
+	server.screen(reflect.Indirect(reflect.ValueOf(obj)).Type().Name(), obj)
+	return nil
 }
 
 // RegisterName is like Register but uses the provided name for the type
 // instead of the receiver's concrete type.
 func (server *Server) RegisterName(name string, obj interface{}) error {
-	return server.Funcs.RegisterName(name, obj)
+	if err := server.Funcs.RegisterName(name, obj); err != nil {
+		return err
+	}
+	server.screen(name, obj)
+	return nil
+}
+
+// screen remembers which exported methods of a registered object cannot be called with the
+// library's conventions (every parameter after the receiver and an optional context.Context is
+// a pointer, no variadic parameter). Such methods - helpers that happen to be exported - are
+// registered by the funcs package like any other; a peer that names one must get the answer
+// for an unknown method, not a reflection panic in the server.
+func (server *Server) screen(name string, obj interface{}) {
+	t := reflect.TypeOf(obj)
+	for i := 0; i < t.NumMethod(); i++ {
+		m := t.Method(i)
+		callable := !m.Type.IsVariadic()
+		for j := 1; callable && j < m.Type.NumIn(); j++ {
+			in := m.Type.In(j)
+			if j == 1 && in.PkgPath() == "context" && in.Name() == "Context" {
+				// after a context come the arguments and, unless the reply is a result, the reply
+				want := 2
+				if m.Type.NumOut() == 2 {
+					want = 1
+				}
+				callable = m.Type.NumIn()-2 >= want
+				continue
+			}
+			callable = in.Kind() == reflect.Ptr
+		}
+		if callable {
+			server.uncallable.Delete(name + "." + m.Name)
+		} else {
+			server.uncallable.Store(name+"."+m.Name, struct{}{})
+		}
+	}
+}
+
+// getFunc looks up a method a peer has named.
+func (server *Server) getFunc(serviceMethod string) *funcs.Func {
+	if _, ok := server.uncallable.Load(serviceMethod); ok {
+		return nil
+	}
+	return server.Funcs.GetFunc(serviceMethod)
 }
 
 // Services returns registered services.
@@ -89,7 +139,7 @@ func (server *Server) Services() []string {
 	return server.Funcs.Services()
 }
 
-//SetBufferSize sets buffer size.
+// SetBufferSize sets buffer size.
 func (server *Server) SetBufferSize(size int) {
 	if size > 0 {
 		server.bufferSize = size
@@ -100,7 +150,7 @@ func (server *Server) SetBufferSize(size int) {
 	}
 }
 
-//SetContextBuffer sets shared buffer.
+// SetContextBuffer sets shared buffer.
 func (server *Server) SetContextBuffer(shared bool) {
 	server.shared = shared
 }
@@ -112,12 +162,12 @@ func (server *Server) SetNoCopy(noCopy bool) {
 	server.noCopy = noCopy
 }
 
-//SetLogLevel sets log's level.
+// SetLogLevel sets log's level.
 func (server *Server) SetLogLevel(level LogLevel) {
 	server.logger.SetLevel(log.Level(level))
 }
 
-//GetLogLevel returns log's level.
+// GetLogLevel returns log's level.
 func (server *Server) GetLogLevel() LogLevel {
 	return LogLevel(server.logger.GetLevel())
 }
@@ -306,7 +356,7 @@ func (server *Server) handleRequest(wg *sync.WaitGroup, ctx *Context) {
 func (server *Server) readRequestBody(ctx *Context) (err error) {
 	var codec = ctx.codec
 	if ctx.upgrade.Stream == openStream {
-		ctx.f = server.Funcs.GetFunc(ctx.ServiceMethod)
+		ctx.f = server.getFunc(ctx.ServiceMethod)
 		if ctx.f == nil {
 			err = errors.New("can't find stream service " + ctx.ServiceMethod)
 			codec.ReadRequestBody(nil, nil)
@@ -324,7 +374,7 @@ func (server *Server) readRequestBody(ctx *Context) (err error) {
 	} else if ctx.upgrade.Stream == streaming {
 	} else {
 		if ctx.upgrade.NoRequest != noRequest {
-			ctx.f = server.Funcs.GetFunc(ctx.ServiceMethod)
+			ctx.f = server.getFunc(ctx.ServiceMethod)
 			if ctx.f == nil {
 				err = errors.New("can't find service " + ctx.ServiceMethod)
 				codec.ReadRequestBody(nil, nil)
@@ -686,22 +736,22 @@ func ServeCodec(codec ServerCodec) {
 	DefaultServer.ServeCodec(codec)
 }
 
-//SetLogLevel sets log's level
+// SetLogLevel sets log's level
 func SetLogLevel(level LogLevel) {
 	DefaultServer.SetLogLevel(level)
 }
 
-//GetLogLevel returns log's level
+// GetLogLevel returns log's level
 func GetLogLevel() LogLevel {
 	return DefaultServer.GetLogLevel()
 }
 
-//SetBufferSize sets buffer size.
+// SetBufferSize sets buffer size.
 func SetBufferSize(size int) {
 	DefaultServer.SetBufferSize(size)
 }
 
-//SetContextBuffer sets shared buffer.
+// SetContextBuffer sets shared buffer.
 func SetContextBuffer(shared bool) {
 	DefaultServer.SetContextBuffer(shared)
 }
